@@ -6,12 +6,20 @@ generator (validated molecules x 14 dtypes x units x width/prec x format overrid
      fields and keywords compared as typed values
 plus an independent Python oracle: per-dtype extractor that reads the atom lines, charge/multiplicity
 and the announced unit back out of the text/keywords and compares them with the molecule.
+
+Second stream, call sequences: families of sibling molecules (one aspect changed) written one after another in this
+process through molparse.to_string / Molecule.to_string / Molecule.to_file, objects reused, rebuilt, returned data
+scribbled on; every answer goes through the same oracle and model, must equal the answer of a fresh process
+(Zygote: fork before anything was written) and must leave its argument unchanged.  Finding kinds:
+oracle:<clause> (atoms, coords, unit_announced, chgmult, fragments, dummy, unexpected_error, unreadable),
+oracle:call_history, oracle:argument_mutated, oracle:conversion_constant.
 """
 from __future__ import annotations
 
 import contextlib
 import io
 import math
+import os
 import re
 from decimal import Decimal
 from fractions import Fraction
@@ -21,7 +29,7 @@ import numpy as np
 from common import Ctx, Finding, Outcome
 
 PROPERTY = "C08"
-LEAN_TARGETS = ["QcelVerif.Props.C08", "QcelVerif.Driver.C08"]
+LEAN_TARGETS = ["QcelVerif.Props.C08", "QcelVerif.Props.C08Seq", "QcelVerif.Driver.C08"]
 DRIVER = "QcelVerif/Driver/C08.lean"
 THEOREMS = [
     ("QcelVerif.FixedFmt.rhe_isNearestEven", "the rounding used by the fixed-point printer returns a nearest integer to tn/td, the even one on an exact tie"),
@@ -42,6 +50,8 @@ THEOREMS = [
     ("QcelVerif.ToString.unit_error_rows", "the rows that raise (orca/terachem/psi4/qchem x nm,pm: KeyError; turbomole x not-Bohr: KeyError; sdf x not-Angstrom: ValueError) are exactly these"),
     ("QcelVerif.ToString.checked_coordinates", "what the driver verifies before rendering: a value f for the model-selected factor exists and every coordinate text is the unique correctly rounded decimal (prec digits; 4 for SDF) of a double within relative 2^-53 of stored x * f"),
     ("QcelVerif.ToString.unit_none_rows", "the rows that write the word None instead of a unit are exactly cfour/molpro/gamess/madness x nm,pm (outside the property's quantifier)"),
+    ("QcelVerif.ToString.spell_tells_labels_apart", "sibling molecules: nwchem / psi4 spell two atoms of the same kind alike only if symbol+label agree, so a text carrying another molecule's labels is not this molecule's text"),
+    ("QcelVerif.ToString.spell_tells_ghost_apart", "sibling molecules: every format except molpro/mrchem/turbomole/sdf spells the ghost and the real atom of the same element, label and Z differently (any label, any Z)"),
 ]
 TRUSTED_BASE = [
     "Lean 4.33 kernel; axioms per theorem audited on every run (subset of propext, Classical.choice, Quot.sound)",
@@ -51,6 +61,7 @@ TRUSTED_BASE = [
     "constants.bohr2angstroms (C02) and constants.conversion_factor (C03) values are parameters; the oracle checks conversion_factor against the SI definitions (relative 1e-12)",
     "guess_connectivity (C18) supplies the SDF bond list when the molecule has none (parameter); from_arrays / from_schema build the molrec (C04)",
     "harness/c08.py generators and the Python oracle",
+    "call sequences: the reference answer of a single call comes from a fresh fork (os.fork) of a process that has imported qcelemental and loaded its unit registry but never built or written a molecule; CPython object allocation decides whether id()-keyed state is met again (such findings may not replay)",
 ]
 ASSUMPTIONS = [
     "integer charges (the property's scope); ASCII names/labels/format overrides",
@@ -59,18 +70,28 @@ ASSUMPTIONS = [
     "nm/pm on dtypes that do not spell them (error rows and the four 'None' rows) are generated for the correspondence only; the oracle makes no demand there",
     "formats without a charge/multiplicity slot (terachem, turbomole, nglview-sdf; madness has no multiplicity value, only spin_restricted) are outside the chgmult clause and counted in the distribution",
     "width >= 1; precision 0..16",
+    "call sequences stay inside the quantifier: every member of a family is a from_arrays-validated molecule, or a Molecule.copy(update=...) of one that changes only name / fix_com / fix_orientation / fix_symmetry / lower-case atom_labels (fields validation leaves as they are; a copy with an upper-case label is not a validated molecule: validation lower-cases labels)",
+    "text-only answers (return_data=False, Molecule.to_file): clauses whose slot is a keyword (cfour/nwchem/madness/gamess charge+multiplicity, cfour/gamess/qchem unit, mrchem keywords) are not evaluated; the rest is",
+    "oracle:call_history demands that a call's answer (text, fields, keywords) does not depend on what the process wrote before; oracle:argument_mutated that to_string leaves the molrec / Molecule it is given unchanged - both are what 'the text states the molecule it was made from' needs once objects are reused",
 ]
 RULE = (
     "molecules: from_arrays-validated, 1-12 atoms on a jittered lattice (coordinates with 1-10 decimals, negative, -0.0 and tiny values), ghosts anywhere, "
     "user labels, isotopes / non-standard masses, 1-4 fragments with valid (charge, multiplicity) in -3..3 / 1..6, Bohr or Angstrom storage, input_units_to_au absent or pinned "
     "(three CODATA-ish values), names, fix_com/fix_orientation/fix_symmetry, explicit bonds; for each molecule EVERY dtype x a rotating choice of unit request "
     "(default, Bohr, Angstrom, case variants, nm, pm) x width/precision x atom_format/ghost_format overrides, both molparse.to_string and Molecule.to_string. "
-    "A case is distinct by (molecule, dtype, units, width, prec, overrides, route) and non-trivial when it has a ghost, >1 fragment, a unit conversion, an override or an error outcome."
+    "A case is distinct by (molecule, dtype, units, width, prec, overrides, route) and non-trivial when it has a ghost, >1 fragment, a unit conversion, an override or an error outcome. "
+    "Views of the molecule and fingerprints of the argument objects are taken before the first call; the same molrec / Molecule object is reused for all its calls and compared after each. "
+    "Call sequences (160 quick / 900 thorough families): a base molecule plus 1-4 siblings differing in ONE aspect (labels, name, fix_com/fix_orientation, fix_symmetry, a ghost flag, an isotope, "
+    "a fragment charge/multiplicity, fragmentation, stored unit, pinned input_units_to_au, one coordinate by 1e-9..1e-2, atom order, swapped positions, bonds, nothing at all; sometimes two aspects; "
+    "Molecule siblings also via Molecule.copy(update=...)); 4 dtypes x 1-2 option sets, each written for every member in shuffled order (sometimes returning to the first), through molparse.to_string, "
+    "Molecule.to_string, Molecule.to_file, with return_data on/off, objects kept or dropped-and-rebuilt, returned keywords/fields scribbled on. Each answer: per-call oracle + model correspondence + "
+    "equality with a fresh process's answer to that single call + argument unchanged. A failing call is localised (fresh processes) to the shortest list of calls that shows it again; that list is the replay."
 )
 LEVEL_TEXT = (
     "Lean proofs (any number of atoms/fragments) about a hand model of to_string: atom lines once and in order, layout read-back, spellings, fragment partition, dummy indices, "
     "charge/multiplicity slots, and the complete unit decision table; partial: the theorems are close to the templates, float printing/multiplication are checked parameters, "
-    "and the model is tied to the code by exact-text differential runs, not by proof."
+    "and the model is tied to the code by exact-text differential runs, not by proof. Independence of a text from earlier calls (caches, shared or edited objects) is searched, not proved: "
+    "sampled call sequences over sibling molecules compared with a history-free model and with fresh processes."
 )
 TECHNIQUE = "Lean 4 proof of list/template theorems and a finite decision table + exact-text behavioural correspondence + independent extractor oracle"
 
@@ -82,6 +103,9 @@ REFUSES = {(d, u) for d in ["orca", "terachem", "psi4", "qchem"] for u in ["nm",
 REFUSES |= {("turbomole", u) for u in ["angstrom", "nm", "pm"]}
 REFUSES |= {("nglview-sdf", u) for u in ["bohr", "nm", "pm"]}
 SPELLS_NM_PM = {"xyz", "xyz+", "nwchem"}
+# formats whose charge/multiplicity slot, resp. unit announcement, is a keyword (not text): unreadable when only the text is returned
+KW_CHG = {"cfour", "nwchem", "madness", "gamess"}
+KW_UNIT = {"cfour", "gamess", "qchem"}
 
 ELEMS = [("H", 1), ("H", 1), ("H", 1), ("He", 2), ("Li", 3), ("Be", 4), ("B", 5), ("C", 6), ("C", 6), ("N", 7), ("O", 8), ("O", 8),
          ("F", 9), ("Ne", 10), ("Na", 11), ("Mg", 12), ("Al", 13), ("Si", 14), ("P", 15), ("S", 16), ("Cl", 17), ("Ar", 18),
@@ -703,7 +727,10 @@ def oracle(v, o, res, stats=None):
             bad.append(("unexpected_error", f"{res[1]}: {res[2]}"))
         return bad
     _, text, data = res
-    kw = data.get("keywords", {})
+    text_only = data is None  # return_data=False / Molecule.to_file: only the text is there to read
+    kw = {} if text_only else data.get("keywords", {})
+    if text_only:
+        tick("oracle:text_only")
     try:
         r = read_back(d, text, kw)
     except Exception as e:  # noqa
@@ -742,19 +769,20 @@ def oracle(v, o, res, stats=None):
                 if not coord_ok(cs[j], Fraction(v["geom"][3 * i + j]) * Fa, prec):
                     bad.append(("unit_announced", f"text/keywords announce {r['unit']} ({r['unit_word']!r}) but coordinates are in {tgt}"))
                     return bad
-    if r["unit"] is None and d not in ("mrchem",) and (tgt in ("bohr", "angstrom") or d in SPELLS_NM_PM):
+    if r["unit"] is None and d not in ("mrchem",) and (tgt in ("bohr", "angstrom") or d in SPELLS_NM_PM) and not (text_only and d in KW_UNIT):
         bad.append(("unit_announced", f"unit word {r['unit_word']!r} is not one the program reads (requested {tgt})"))
     # --- charge and multiplicity
     c, m = int(v["charge"]), int(v["mult"])
-    if d in ("xyz", "xyz+", "orca", "cfour", "molpro", "nwchem", "madness", "gamess", "psi4", "qchem", "mrchem"):
+    kw_slot = text_only and d in KW_CHG  # the slot is a keyword and no keywords were returned: nothing to read
+    if d in ("xyz", "xyz+", "orca", "cfour", "molpro", "nwchem", "madness", "gamess", "psi4", "qchem", "mrchem") and not kw_slot:
         if r["charge"] != c or isinstance(r["charge"], bool):
             bad.append(("chgmult", f"charge stated {r['charge']!r}, molecule {c}"))
-    if d in ("xyz", "xyz+", "orca", "cfour", "molpro", "nwchem", "gamess", "psi4", "qchem", "mrchem"):
+    if d in ("xyz", "xyz+", "orca", "cfour", "molpro", "nwchem", "gamess", "psi4", "qchem", "mrchem") and not kw_slot:
         if r["mult"] != m or isinstance(r["mult"], bool):
             bad.append(("chgmult", f"multiplicity stated {r['mult']!r}, molecule {m}"))
-    if d == "madness" and r["open_shell"] != (m != 1):
+    if d == "madness" and not kw_slot and r["open_shell"] != (m != 1):
         bad.append(("chgmult", f"spin_restricted flag {r['open_shell']} for multiplicity {m}"))
-    if d == "mrchem":
+    if d == "mrchem" and not text_only:
         if r["kw_charge"] != c or r["kw_mult"] != m:
             bad.append(("chgmult", f"mrchem keywords charge/multiplicity {r['kw_charge']!r}/{r['kw_mult']!r}, molecule {c}/{m}"))
         if r["kw_coords"] != "\n".join(text.split("\n")[5:-3]):
@@ -820,11 +848,27 @@ def classify(v, o):
     return tags
 
 
-def check_case(ctx, out: Outcome, spec, rec, o, model_line, route, mol=None, view=None):
-    d = o["dtype"].lower()
+def check_case(ctx, out: Outcome, spec, rec, o, model_line, route, mol=None, view=None, fp=None):
+    """One call of the main stream.  `view` / `fp` (fingerprint of the argument) were taken BEFORE any call was made with
+    this object, so a to_string that edits its argument is seen, not followed.  Returns True when the argument was edited."""
     v = view if view is not None else mol_view(rec)
     res = call_impl(rec, o, mol)
     case = {"spec": spec, "opts": o, "route": route}
+    edited = False
+    if fp is not None:
+        now = freeze_dict(mol.dict() if mol is not None else rec)
+        if now != fp:
+            edited = True
+            keys = sorted(k for k in set(fp) | set(now) if fp.get(k) != now.get(k))
+            out.violations.append(Finding("oracle:argument_mutated", case, observed=keys,
+                                          detail=f"{route} to_string changed the molecule it was given (fields {keys}); a later text made from the same object no longer states the molecule"))
+    judge(ctx, out, case, spec_key(spec), v, o, res, model_line, route)
+    return edited
+
+
+def judge(ctx, out: Outcome, case, skey, v, o, res, model_line, route):
+    """Property oracle + model correspondence for one answer `res` of the implementation."""
+    d = o["dtype"].lower()
     out.evaluations += 1
     tgt = target_unit(o)
     out.count(f"dtype:{d}")
@@ -840,11 +884,12 @@ def check_case(ctx, out: Outcome, spec, rec, o, model_line, route, mol=None, vie
         out.count("outcome:ok")
         ci = "ok"
     if tags or res[0] == "err":
-        out.nontrivial((spec_key(spec), d, str(o["units"]), o["width"], o["prec"], str(o["atom_format"]), str(o["ghost_format"]), route))
+        out.nontrivial((skey, d, str(o["units"]), o["width"], o["prec"], str(o["atom_format"]), str(o["ghost_format"]), route))
     if d in ("terachem", "turbomole", "nglview-sdf") and res[0] == "ok":
         out.count("chgmult:no_slot:" + d)
     if len(out.samples) < 6 and tags and res[0] == "ok" and len(v["elem"]) <= 4 and ctx.rng.random() < 0.05:
-        out.sample({"dtype": d, "units": o["units"], "stored": v["stored"], "width": o["width"], "prec": o["prec"], "text": res[1], "keywords": canon_kw(res[2]["keywords"])})
+        out.sample({"dtype": d, "units": o["units"], "stored": v["stored"], "width": o["width"], "prec": o["prec"], "text": res[1],
+                    "keywords": canon_kw(res[2]["keywords"]) if res[2] is not None else None})
     # --- property oracle on the implementation
     stats = {}
     findings = oracle(v, o, res, stats)
@@ -874,6 +919,8 @@ def check_case(ctx, out: Outcome, spec, rec, o, model_line, route, mol=None, vie
     _, mtext, mfields, mkw = pm
     if mtext != res[1]:
         out.mismatches.append(Finding("mismatch", case, observed=res[1], expected=mtext, detail="text: " + diff_text(res[1], mtext)))
+    elif res[2] is None:
+        pass  # text-only answer (return_data=False / to_file): nothing else to compare
     elif list(res[2].get("fields", [])) != mfields:
         out.mismatches.append(Finding("mismatch", case, observed=list(res[2].get("fields", [])), expected=mfields, detail="fields"))
     elif canon_kw(res[2].get("keywords", {})) != mkw:
@@ -896,6 +943,667 @@ def molecule_route(spec, rec):
         mol = qcel.models.Molecule(**qcel.molparse.to_schema(rec, dtype=2))
         rec2 = from_schema(mol.dict(), nonphysical=True)
     return mol, rec2
+
+
+# --------------------------------------------------------------------------------------
+# call sequences: sibling molecules written one after another in one process
+#
+# The property is about every text, whatever was written before it.  A family is a base molecule plus variants that
+# differ from it in ONE aspect (labels, name, frame flags, ghost flag, isotope, charge/multiplicity, fragmentation,
+# stored unit, pinned factor, a coordinate by 1e-9..1e-2, atom order, swapped positions, bonds) or in nothing at all
+# (an equal molecule built separately); Molecule variants are also made by Molecule.copy(update=...).  A sequence writes
+# the members of a family in varied order through both entry points (and Molecule.to_file, return_data=False), reusing
+# the molrec / Molecule objects between calls, dropping and rebuilding them, and scribbling on the returned data.
+# Every answer is judged by the same per-call oracle against a view of the molecule taken before the first call,
+# and must equal the answer a process that has written nothing else gives to the same single call (`Zygote`).
+
+
+def freeze(x):
+    """hashable, exact fingerprint of a molrec / Molecule.dict() value"""
+    if isinstance(x, np.ndarray):
+        return ("nd", str(x.dtype), x.shape, repr(x.tolist()) if x.dtype == object else x.tobytes())
+    if isinstance(x, dict):
+        return ("d", tuple(sorted(((str(k), freeze(v)) for k, v in x.items()), key=lambda kv: kv[0])))
+    if isinstance(x, (list, tuple)):
+        return (type(x).__name__, tuple(freeze(y) for y in x))
+    if isinstance(x, (float, np.floating)):
+        return ("f", float(x).hex())
+    if isinstance(x, np.generic):
+        return ("g", str(x.dtype), repr(x.item()))
+    return (type(x).__name__, repr(x))
+
+
+def freeze_dict(d):
+    return {str(k): freeze(v) for k, v in d.items()}
+
+
+def jcopy(x):
+    import json
+
+    return json.loads(json.dumps(x))
+
+
+ASPECTS = ["labels", "labels", "name", "frame", "symmetry", "ghost", "isotope", "chgmult", "frags", "units", "iutau",
+           "geom_small", "reorder", "swap_geom", "connectivity", "same"]
+COPY_ASPECTS = ["labels", "name", "frame", "symmetry"]  # fields Molecule.copy(update=...) may change without re-validation
+SYMS = [None, "c1", "C1", "c2v", "Cs", "d2h", "C2"]
+
+
+def frag_of(spec, i):
+    k = 0
+    for s in spec["fragment_separators"]:
+        if i >= s:
+            k += 1
+    return k
+
+
+def derive(rng, spec, aspect):
+    """A from_arrays kwargs dict that differs from `spec` in one aspect (None: not applicable); validity is decided by from_arrays."""
+    s = jcopy(spec)
+    nat = len(s["elem"])
+    nfr = len(s["fragment_charges"])
+    if aspect == "same":
+        return s
+    if aspect == "labels":
+        i = rng.randrange(nat)
+        new = [rng.choice(LABELS) if rng.random() < 0.5 else l for l in s["elbl"]]
+        new[i] = rng.choice([l for l in LABELS if l != s["elbl"][i]])
+        s["elbl"] = new
+    elif aspect == "name":
+        nm = rng.choice([n for n in NAMES[2:] + ["second", "B"] if n != s.get("name")])
+        if nm is None:
+            s.pop("name", None)
+        else:
+            s["name"] = nm
+    elif aspect == "frame":
+        cur = (bool(s.get("fix_com", False)), bool(s.get("fix_orientation", False)))
+        s["fix_com"], s["fix_orientation"] = rng.choice([c for c in [(False, False), (False, True), (True, False), (True, True)] if c != cur])
+    elif aspect == "symmetry":
+        sym = rng.choice([x for x in SYMS if x != s.get("fix_symmetry")])
+        if sym is None:
+            s.pop("fix_symmetry", None)
+        else:
+            s["fix_symmetry"] = sym
+    elif aspect == "ghost":
+        i = rng.randrange(nat)
+        s["real"][i] = not s["real"][i]
+        k = frag_of(s, i)
+        s["fragment_charges"][k] = None
+        s["fragment_multiplicities"][k] = None
+    elif aspect == "isotope":
+        cands = [i for i in range(nat) if s["elem"][i].capitalize() in ISOTOPES]
+        if not cands:
+            return None
+        i = rng.choice(cands)
+        elea = s.get("elea") or [None] * nat
+        opts = [a for a in ISOTOPES[s["elem"][i].capitalize()] + [None] if a != elea[i]]
+        elea[i] = rng.choice(opts)
+        s["elea"] = elea
+        if "mass" in s:
+            s["mass"][i] = None
+    elif aspect == "chgmult":
+        k = rng.randrange(nfr)
+        s["fragment_charges"][k] = rng.choice([c for c in [-2, -1, 0, 1, 2] if c != s["fragment_charges"][k]])
+        s["fragment_multiplicities"][k] = None
+    elif aspect == "frags":
+        if nat < 2:
+            return None
+        n2 = rng.choice([n for n in range(1, min(nat, 4) + 1)])
+        cuts = sorted(rng.sample(range(1, nat), n2 - 1))
+        if cuts == s["fragment_separators"]:
+            return None
+        s["fragment_separators"] = cuts
+        s["fragment_charges"] = [None] * n2
+        s["fragment_multiplicities"] = [None] * n2
+    elif aspect == "units":
+        s["units"] = "Angstrom" if s["units"] == "Bohr" else "Bohr"
+        s.pop("input_units_to_au", None)
+    elif aspect == "iutau":
+        if s["units"] == "Bohr":
+            if "input_units_to_au" in s:
+                s.pop("input_units_to_au")
+            else:
+                s["input_units_to_au"] = 1.0
+        else:
+            s["input_units_to_au"] = rng.choice([x for x in PINNED_A + [None] if x != s.get("input_units_to_au")])
+            if s["input_units_to_au"] is None:
+                s.pop("input_units_to_au")
+    elif aspect == "geom_small":
+        i = rng.randrange(3 * nat)
+        s["geom"][i] = s["geom"][i] + rng.choice([1, -1]) * rng.choice([1e-9, 1e-8, 1e-7, 1e-6, 3e-5, 1e-2])
+    elif aspect == "reorder":
+        seps = [0] + s["fragment_separators"] + [nat]
+        blocks = [(a, b) for a, b in zip(seps, seps[1:]) if b - a >= 2]
+        if not blocks:
+            return None
+        a, b = rng.choice(blocks)
+        i, j = rng.sample(range(a, b), 2)
+        for key in ("elem", "real", "elbl", "elea", "mass"):
+            if key in s:
+                s[key][i], s[key][j] = s[key][j], s[key][i]
+        for c in range(3):
+            s["geom"][3 * i + c], s["geom"][3 * j + c] = s["geom"][3 * j + c], s["geom"][3 * i + c]
+        if all(s[key][i] == s[key][j] for key in ("elem", "real", "elbl") if key in s) and s.get("elea", [0] * nat)[i] == s.get("elea", [0] * nat)[j]:
+            return None  # indistinguishable atoms: the same molecule
+    elif aspect == "swap_geom":
+        if nat < 2:
+            return None
+        i, j = rng.sample(range(nat), 2)
+        for c in range(3):
+            s["geom"][3 * i + c], s["geom"][3 * j + c] = s["geom"][3 * j + c], s["geom"][3 * i + c]
+    elif aspect == "connectivity":
+        if nat < 2:
+            return None
+        if "connectivity" in s and rng.random() < 0.5:
+            s.pop("connectivity")
+        else:
+            a, b = sorted(rng.sample(range(nat), 2))
+            s["connectivity"] = [[a, b, rng.choice([1.0, 2.0, 3.0])]]
+    return s
+
+
+def copy_update(rng, spec, aspect):
+    """JSON-able description of a Molecule.copy(update=...) changing one un-validated field"""
+    nat = len(spec["elem"])
+    if aspect == "labels":
+        # validation lower-cases labels; a copy is not re-validated, so only labels validation leaves alone stay inside the quantifier
+        new = [rng.choice(LABELS).lower() for _ in range(nat)]
+        i = rng.randrange(nat)
+        new[i] = rng.choice([l.lower() for l in LABELS if l.lower() != spec["elbl"][i].lower()])
+        return {"atom_labels": new}
+    if aspect == "name":
+        return {"name": rng.choice([n for n in NAMES[3:] + ["second"] if n != spec.get("name")])}
+    if aspect == "frame":
+        cur = (bool(spec.get("fix_com", False)), bool(spec.get("fix_orientation", False)))
+        fc, fo = rng.choice([c for c in [(False, False), (False, True), (True, False), (True, True)] if c != cur])
+        return {"fix_com": fc, "fix_orientation": fo}
+    return {"fix_symmetry": rng.choice([x for x in SYMS if x != spec.get("fix_symmetry")])}
+
+
+class Objects:
+    """The molrec / Molecule objects of a family, built on demand from the JSON description and kept between calls."""
+
+    def __init__(self, variants):
+        self.variants = variants
+        self.recs = {}
+        self.mols = {}
+
+    def rec(self, i):
+        if i not in self.recs:
+            self.recs[i] = build_molrec(self.variants[i]["spec"])
+        return self.recs[i]
+
+    def make_mol(self, i):
+        import qcelemental as qcel
+
+        v = self.variants[i]
+        if "copy_of" in v:
+            upd = dict(v["update"])
+            if "atom_labels" in upd:
+                upd["atom_labels_"] = np.array(upd.pop("atom_labels"))
+            return self.mol(v["copy_of"]).copy(update=upd)
+        with quiet():
+            return qcel.models.Molecule(**qcel.molparse.to_schema(build_molrec(v["spec"]), dtype=2))
+
+    def mol(self, i, fresh=False):
+        if fresh:
+            # every Molecule object kept so far is dropped before the new one is built: the new object may sit where an
+            # equal or a sibling molecule sat (same id()), and nothing may remember the old one
+            self.mols.clear()
+        if i not in self.mols:
+            self.mols[i] = self.make_mol(i)
+        return self.mols[i]
+
+
+def prepare_family(variants):
+    """Per variant: the views the oracle compares with and the molrecs the model is given.  Built from separate objects
+    that are never handed to to_string.  Sets variant['nomol'] when no Molecule can be built (molparse route only)."""
+    from qcelemental.molparse.from_schema import from_schema
+
+    objs = Objects(variants)
+    prep = []
+    for i, v in enumerate(variants):
+        p = {}
+        if "spec" in v:
+            rec = objs.rec(i)
+            p["rec"] = rec
+            p["view_rec"] = mol_view(rec)
+        if not v.get("nomol"):
+            try:
+                mol = objs.mol(i)
+                with quiet():
+                    p["rec2"] = from_schema(mol.dict(), nonphysical=True)
+                vw = view_from_molecule(mol)
+                if not vw.pop("contiguous"):
+                    raise ValueError("non-contiguous fragments")
+                p["view_mol"] = vw
+            except Exception:
+                if "copy_of" in v:
+                    raise
+                v["nomol"] = True
+        prep.append(p)
+    return prep
+
+
+def gen_family(rng):
+    """(variants, calls) or None"""
+    base = gen_spec(rng)
+    variants = [{"spec": base, "aspect": "base"}]
+    try:
+        rec = build_molrec(base)
+    except Exception:
+        return None
+    if not (-3 <= rec["molecular_charge"] <= 3 and 1 <= rec["molecular_multiplicity"] <= 6):
+        return None
+    for _ in range(rng.choice([1, 2, 2, 3, 4])):
+        parents = [i for i, v in enumerate(variants) if "spec" in v]
+        pi = rng.choice(parents)
+        asp = rng.choice(ASPECTS)
+        if asp in COPY_ASPECTS and rng.random() < 0.3:
+            variants.append({"copy_of": pi, "update": copy_update(rng, variants[pi]["spec"], asp), "aspect": "copy:" + asp})
+            continue
+        s = derive(rng, variants[pi]["spec"], asp)
+        if s is not None and rng.random() < 0.2:
+            asp2 = rng.choice(ASPECTS)
+            s2 = derive(rng, s, asp2)
+            if s2 is not None:
+                s, asp = s2, asp + "+" + asp2
+        if s is None:
+            continue
+        try:
+            rec = build_molrec(s)
+        except Exception:
+            continue
+        if not (-3 <= rec["molecular_charge"] <= 3 and 1 <= rec["molecular_multiplicity"] <= 6):
+            continue
+        if any(not (-3 <= c <= 3) or c != int(c) for c in rec["fragment_charges"]) or any(not (1 <= m <= 6) for m in rec["fragment_multiplicities"]):
+            continue
+        variants.append({"spec": s, "aspect": asp})
+    if len(variants) < 2:
+        return None
+    try:
+        prep = prepare_family(variants)
+    except Exception:
+        return None
+    nv = len(variants)
+    mode = rng.choice(["molparse", "molparse", "Molecule", "Molecule", "Molecule", "mixed"])
+    calls = []
+    for d in rng.sample(DTYPES, 4):
+        for rnd in range(1 + (rng.random() < 0.6)):
+            o = gen_opts(rng, d, 0 if (rnd == 0 and rng.random() < 0.4) else 1)
+            order = list(range(nv))
+            rng.shuffle(order)
+            if rng.random() < 0.3:
+                order.append(order[0])
+            for vi in order:
+                route = mode if mode != "mixed" else rng.choice(["molparse", "Molecule"])
+                if "copy_of" in variants[vi]:
+                    route = "Molecule"
+                elif variants[vi].get("nomol"):
+                    route = "molparse"
+                c = {"v": vi, "route": route, "opts": o, "rd": True, "fresh": False, "post": None}
+                x = rng.random()
+                if x < 0.08:
+                    c["rd"] = False
+                elif x < 0.22:
+                    c["post"] = "scribble"
+                if route == "Molecule":
+                    if rng.random() < 0.15:
+                        c["fresh"] = True
+                    if d in ("xyz", "xyz+", "psi4") and rng.random() < 0.3:
+                        c.update(route="to_file", opts=gen_opts(rng, d, 0), rd=False, post=None)
+                calls.append(c)
+    return variants, calls, prep
+
+
+def exec_sequence(variants, calls):
+    """Make the calls, in order, in THIS process.  Returns per call {"res", "mutated"}."""
+    import copy
+    import shutil
+    import tempfile
+
+    from qcelemental.molparse import to_string
+
+    objs = Objects(variants)
+    tmp = None
+    results = []
+    for n, c in enumerate(calls):
+        o = c["opts"]
+        kw = dict(units=o["units"], atom_format=o["atom_format"], ghost_format=o["ghost_format"], width=o["width"], prec=o["prec"])
+        mutated = None
+        try:
+            if c["route"] == "molparse":
+                target = objs.rec(c["v"])
+                before = freeze_dict(target)
+            else:
+                target = objs.mol(c["v"], c.get("fresh", False))
+                before = freeze_dict(target.dict())
+        except Exception as e:  # noqa
+            results.append({"res": ("build-failed", type(e).__name__, str(e)[:200]), "mutated": None})
+            continue
+        try:
+            with quiet():
+                if c["route"] == "molparse":
+                    r = to_string(target, o["dtype"], return_data=c["rd"], **kw)
+                elif c["route"] == "Molecule":
+                    r = target.to_string(o["dtype"], return_data=c["rd"], **kw)
+                else:
+                    if tmp is None:
+                        tmp = tempfile.mkdtemp(prefix="c08seq")
+                    path = f"{tmp}/m{n}.txt"
+                    target.to_file(path, o["dtype"])
+                    with open(path, newline="") as fh:
+                        r = fh.read()
+            if c["rd"] and c["route"] != "to_file":
+                res = ("ok", r[0], copy.deepcopy(r[1]))  # a snapshot: whatever happens to the returned object later is not this answer
+                if c.get("post") == "scribble":  # the caller edits what it was handed; later answers must not notice
+                    data = r[1]
+                    for k in list(data.get("keywords", {})):
+                        data["keywords"][k] = "scribbled"
+                    data.setdefault("keywords", {}).update({"charge": 99, "multiplicity": 99, "units": "scribbled", "contrl__icharg": 99, "dft__mult": 99})
+                    if isinstance(data.get("fields"), list):
+                        data["fields"].append("scribbled")
+            else:
+                res = ("ok", r, None)
+        except Exception as e:  # noqa
+            res = ("err", type(e).__name__, str(e)[:200])
+        after = freeze_dict(target if c["route"] == "molparse" else target.dict())
+        if after != before:
+            mutated = sorted(k for k in set(before) | set(after) if before.get(k) != after.get(k))
+        results.append({"res": res, "mutated": mutated})
+    if tmp is not None:
+        shutil.rmtree(tmp, ignore_errors=True)
+    return results
+
+
+class Zygote:
+    """A process forked from the harness before it has written any molecule.  Each job (variants, calls) is executed by a
+    fresh fork of it, i.e. by a process in which no other molecule has ever been built or written."""
+
+    PAR = 8
+
+    def __init__(self):
+        import pickle
+
+        self.pickle = pickle
+        r1, w1 = os.pipe()
+        r2, w2 = os.pipe()
+        pid = os.fork()
+        if pid == 0:
+            try:
+                os.close(w1)
+                os.close(r2)
+                self._serve(r1, w2)
+            finally:
+                os._exit(0)
+        os.close(r1)
+        os.close(w2)
+        self.w = os.fdopen(w1, "wb")
+        self.r = os.fdopen(r2, "rb")
+        self.pid = pid
+
+    def run_many(self, jobs):
+        if not jobs:
+            return []
+        self.pickle.dump(jobs, self.w)
+        self.w.flush()
+        return self.pickle.load(self.r)
+
+    def close(self):
+        try:
+            self.w.close()
+            self.r.close()
+            os.waitpid(self.pid, 0)
+        except Exception:
+            pass
+
+    def _serve(self, rfd, wfd):
+        import select
+
+        import qcelemental  # noqa: F401  (imported once; the forks share it)
+
+        consts()  # loads the lazily imported unit registry (pint, ~0.4 s) once instead of in every fork; no molecule is involved
+
+        pickle = self.pickle
+        rf = os.fdopen(rfd, "rb")
+        wf = os.fdopen(wfd, "wb")
+        while True:
+            try:
+                jobs = pickle.load(rf)
+            except EOFError:
+                return
+            results = [None] * len(jobs)
+            pending = {}
+            nxt = 0
+            while nxt < len(jobs) or pending:
+                while nxt < len(jobs) and len(pending) < self.PAR:
+                    cr, cw = os.pipe()
+                    pid = os.fork()
+                    if pid == 0:
+                        try:
+                            os.close(cr)
+                            try:
+                                payload = pickle.dumps(exec_sequence(*jobs[nxt]))
+                            except BaseException as e:  # noqa
+                                payload = pickle.dumps([{"res": ("crash", type(e).__name__, str(e)[:200]), "mutated": None}] * len(jobs[nxt][1]))
+                            with os.fdopen(cw, "wb") as fh:
+                                fh.write(payload)
+                        finally:
+                            os._exit(0)
+                    os.close(cw)
+                    pending[cr] = (nxt, pid, [])
+                    nxt += 1
+                ready, _, _ = select.select(list(pending), [], [])
+                for fd in ready:
+                    chunk = os.read(fd, 1 << 16)
+                    if chunk:
+                        pending[fd][2].append(chunk)
+                    else:
+                        idx, pid, buf = pending.pop(fd)
+                        os.close(fd)
+                        os.waitpid(pid, 0)
+                        results[idx] = pickle.loads(b"".join(buf))
+            pickle.dump(results, wf)
+            wf.flush()
+
+
+def same_answer(a, b):
+    if a[0] != b[0]:
+        return False
+    if a[0] != "ok":
+        return a[1:] == b[1:]
+    if a[1] != b[1] or (a[2] is None) != (b[2] is None):
+        return False
+    if a[2] is None:
+        return True
+    return list(a[2].get("fields", [])) == list(b[2].get("fields", [])) and canon_kw(a[2].get("keywords", {})) == canon_kw(b[2].get("keywords", {}))
+
+
+def call_view(prep, c):
+    p = prep[c["v"]]
+    return (p["view_rec"], p["rec"]) if c["route"] == "molparse" else (p["view_mol"], p["rec2"])
+
+
+def call_key(c):
+    import json
+
+    return json.dumps([c["v"], c["route"], c["opts"], c["rd"]], sort_keys=True)
+
+
+def call_findings(ctx, variants, calls, n, prep, r, ref):
+    """Findings (kind, detail, observed) of call n of a sequence given its answer r and the isolated answer ref (or None)."""
+    c = calls[n]
+    v, _ = call_view(prep, c)
+    fs = []
+    res = r["res"]
+    if res[0] in ("build-failed", "crash"):
+        return [("harness", f"{res[0]}: {res[1]} {res[2]}", None)]
+    for clause, msg in oracle(v, c["opts"], res, {}):
+        fs.append(("oracle:" + clause, msg, res[1] if res[0] == "ok" else "err " + res[1]))
+    if r["mutated"]:
+        fs.append(("oracle:argument_mutated", f"{c['route']} to_string changed the molecule it was given (fields {r['mutated']})", r["mutated"]))
+    if ref is not None and ref["res"][0] not in ("build-failed", "crash") and not same_answer(res, ref["res"]):
+        what = diff_text(res[1], ref["res"][1]).replace("implementation", "in sequence").replace("model", "alone") if res[0] == ref["res"][0] == "ok" and res[1] != ref["res"][1] \
+            else ("keywords/fields differ" if res[0] == ref["res"][0] == "ok" else f"{res[0]} {res[1]} in sequence / {ref['res'][0]} alone")
+        fs.append(("oracle:call_history", f"call {n} ({c['route']}, variant {c['v']} [{variants[c['v']].get('aspect')}], {c['opts']['dtype']}): the answer after {n} earlier call(s) differs from "
+                   f"the answer of a process that wrote only this molecule: {what}", res[1] if res[0] == "ok" else "err " + res[1]))
+    return fs
+
+
+def merge_calls(items):
+    """[(variants, call)] of possibly several families -> one (variants, calls) sequence; also the new index of each item's molecule"""
+    variants, calls, base = [], [], {}
+    for vs, c in items:
+        if id(vs) not in base:
+            base[id(vs)] = len(variants)
+            for v in vs:
+                v2 = dict(v)
+                if "copy_of" in v2:
+                    v2["copy_of"] += base[id(vs)]
+                variants.append(v2)
+        calls.append(dict(c, v=c["v"] + base[id(vs)]))
+    return variants, calls
+
+
+def localise(ctx, zy, log, pos, kind, pentry, ref):
+    """log[pos] = (variants, call) showed a finding of `kind` in this process.  Find a short list of calls, ending with that
+    call, that shows it again when a FRESH process makes them (so that the recorded case replays): the call alone; else
+    earlier calls on the same family; else the last 1, 2, 4 ... calls of the whole process.  Returns (variants, calls, note)."""
+    from common import shrink_list
+
+    target = log[pos]
+
+    def fails(hist):
+        variants, calls = merge_calls(hist + [target])
+        rs = zy.run_many([(variants, calls)])[0]
+        n = len(calls) - 1
+        return any(k == kind for k, _, _ in call_findings(ctx, variants, calls, n, {calls[n]["v"]: pentry}, rs[-1], ref))
+
+    def done(hist, note):
+        variants, calls = merge_calls(hist + [target])
+        return variants, calls, note
+
+    if fails([]):
+        return done([], "fails on its own")
+    family = [it for it in log[:pos] if it[0] is target[0]]
+    if family and fails(family):
+        for it in reversed(family):  # a single earlier call is the usual culprit
+            if fails([it]):
+                return done([it], "depends on 1 earlier call on a sibling molecule")
+        hist = shrink_list(family, fails, max_steps=30)
+        return done(hist, f"depends on {len(hist)} earlier call(s) on sibling molecules")
+    k = 1
+    while k <= min(pos, 512):
+        hist = log[pos - k: pos]
+        if fails(hist):
+            if k > 1:
+                hist = shrink_list(hist, fails, max_steps=30)
+            return done(hist, f"depends on {len(hist)} earlier call(s) on other molecules")
+        if k == pos:
+            break
+        k = min(2 * k, pos)
+    # state keyed by something the allocator decides (id() of a dropped object ...): repeating the family's calls gives the
+    # freed objects of one round the chance to be met again in the next
+    rep = (family + [target]) * 3 + family
+    if fails(rep):
+        hist = shrink_list(rep, fails, max_steps=30)
+        return done(hist, f"allocation-dependent: shown again by a fresh process that repeats the family's calls ({len(hist)} earlier calls)")
+    return done(family, "NOT reproduced by a fresh process from the last 512 calls; the calls on this family are recorded")
+
+
+def run_sequences(ctx, out: Outcome, zy, fams, model_lines, log, shrink_budget=2, also_isolated=False):
+    """fams: [(variants, calls, prep)]; model_lines: one per call, family after family (or Nones); log: every call this
+    process has made so far, in order (appended to)."""
+    jobs, where = [], []
+    for fi, (variants, calls, prep) in enumerate(fams):
+        seen = {}
+        for n, c in enumerate(calls):
+            k = call_key(c)
+            if k not in seen:
+                seen[k] = len(jobs)
+                jobs.append((variants, [dict(c, fresh=False, post=None)]))
+            where.append(seen[k])
+        if also_isolated:
+            jobs.append((variants, calls))
+    refs = zy.run_many(jobs)
+    pos = 0
+    found = []  # (family index, call index, findings, ref, position in log)
+    for fi, (variants, calls, prep) in enumerate(fams):
+        results = exec_sequence(variants, calls)
+        runs = [("", results)]
+        if also_isolated:  # a replay: the recorded calls were found failing in a fresh process; look there as well as here,
+            # and make the calls a few more times (objects dropped in between) for state that depends on where objects land
+            runs.append(("fresh process: ", refs[max(where[pos: pos + len(calls)]) + 1]))
+            for k in range(2, 6):
+                runs.append((f"round {k}: ", exec_sequence(variants, calls)))
+        out.count("sequence:families")
+        out.count("sequence:members", len(variants))
+        for v in variants[1:]:
+            out.count("sequence:aspect:" + str(v.get("aspect", "?")))
+        for n, c in enumerate(calls):
+            r = results[n]
+            ref = refs[where[pos]][0]
+            ml = model_lines[pos]
+            pos += 1
+            log.append((variants, c))
+            v, _ = call_view(prep, c)
+            out.count("sequence:calls")
+            if c.get("post"):
+                out.count("sequence:returned_data_scribbled")
+            if c.get("fresh"):
+                out.count("sequence:object_rebuilt")
+            if not c["rd"]:
+                out.count("sequence:text_only")
+            if ref["res"][0] in ("build-failed", "crash") or r["res"][0] in ("build-failed", "crash"):
+                out.count("sequence:harness_trouble:" + str(r["res"][:2]) + str(ref["res"][:2]))
+                continue
+            fs, seen_kinds = [], set()
+            for tag, rs in runs:
+                for kind, msg, obs in call_findings(ctx, variants, calls, n, prep, rs[n], ref):
+                    if kind not in seen_kinds:
+                        seen_kinds.add(kind)
+                        fs.append((kind, tag + msg, obs))
+            if fs:
+                found.append((fi, n, fs, ref, len(log) - 1))
+            # correspondence with the (history-free) model; the oracle clauses were evaluated above
+            sub = Outcome()
+            judge(ctx, sub, {"stream": "sequence", "variants": variants, "calls": calls[: n + 1]},
+                  spec_key(variants[c["v"]].get("spec", variants[c["v"]])), v, c["opts"], r["res"], ml, "seq:" + c["route"])
+            out.evaluations += sub.evaluations
+            out.distinct |= sub.distinct
+            for k, cnt in sub.distribution.items():
+                out.count(k, cnt)
+            out.mismatches += sub.mismatches
+            for s_ in sub.samples:
+                out.sample(s_)
+    # findings that name the wrong datum (atoms, coords, chgmult ...) before the bare "differs from a fresh process" ones
+    found.sort(key=lambda t: 0 if any(k != "oracle:call_history" for k, _, _ in t[2]) else 1)
+    ok_first, rest = [], []
+    retry = 4  # findings whose recorded calls do not fail again in a fresh process (allocation-dependent state): try the next ones
+    for fi, n, fs, ref, lp in found:
+        variants, calls, prep = fams[fi]
+        c = calls[n]
+        fs.sort(key=lambda f: f[0] == "oracle:call_history")
+        case = {"stream": "sequence", "variants": variants, "calls": calls[: n + 1]}
+        note = ""
+        reproduced = False
+        if shrink_budget > 0:
+            try:
+                vs, cs, note = localise(ctx, zy, log, lp, fs[0][0], prep[c["v"]], ref)
+                case = {"stream": "sequence", "variants": vs, "calls": cs}
+                reproduced = not note.startswith("NOT")
+                note = "; " + note
+            except Exception as e:  # noqa
+                out.count("sequence:localise_failed:" + type(e).__name__)
+            if reproduced:
+                shrink_budget -= 1
+            else:
+                retry -= 1
+                if retry <= 0:
+                    shrink_budget = 0
+        for kind, msg, obs in fs:
+            (ok_first if reproduced else rest).append(Finding(kind, case, observed=obs, detail=f"[sequence, call {n}: {c['route']} variant {c['v']} ({variants[c['v']].get('aspect')}) {c['opts']['dtype']}{note}] " + msg))
+    out.violations += ok_first + rest
 
 
 def run_model_parallel(ctx: Ctx, lines, nproc=4):
@@ -935,18 +1643,29 @@ def run_model_parallel(ctx: Ctx, lines, nproc=4):
 
 def run(ctx: Ctx) -> Outcome:
     out = Outcome()
+    zy = Zygote()  # forked before this process has built or written any molecule
+    try:
+        return _run(ctx, out, zy)
+    finally:
+        zy.close()
+
+
+def _run(ctx: Ctx, out: Outcome, zy) -> Outcome:
     check_conversion_constants(out)
     rng = ctx.rng
     nmol = ctx.scale(700, 4000)
     mols = gen_molecules(ctx, nmol)
     cases = []
+    holders = []  # per argument object: [object handed to to_string, view and fingerprint taken before the first call]
     for idx, (spec, rec) in enumerate(mols):
+        h = {"rec": rec, "mol": None, "view": mol_view(rec), "fp": freeze_dict(rec), "spec": spec, "enc": rec}
+        holders.append(h)
         for d in DTYPES:
             nk = 3 if d in ("xyz", "xyz+", "nwchem") else 2
             for k in range(nk):
                 if k == 0 and idx % 3:
                     continue
-                cases.append((spec, rec, gen_opts(rng, d, k), "molparse", None, None))
+                cases.append((h, gen_opts(rng, d, k), "molparse"))
         if idx % 4 == 0:
             try:
                 mol, rec2 = molecule_route(spec, rec)
@@ -956,23 +1675,82 @@ def run(ctx: Ctx) -> Outcome:
             view = view_from_molecule(mol)
             if not view.pop("contiguous"):
                 continue
+            hm = {"rec": rec2, "mol": mol, "view": view, "fp": freeze_dict(mol.dict()), "spec": spec, "enc": rec2}
+            holders.append(hm)
             for d in rng.sample(DTYPES, 5):
-                cases.append((spec, rec2, gen_opts(rng, d, rng.choice([0, 1])), "Molecule", mol, view))
-    model = [None] * len(cases)
+                cases.append((hm, gen_opts(rng, d, rng.choice([0, 1])), "Molecule"))
+    # call sequences over families of sibling molecules (generated after the main stream: its cases are unchanged)
+    fams = []
+    nfam = ctx.scale(160, 900)
+    tries = 0
+    while len(fams) < nfam and tries < 4 * nfam:
+        tries += 1
+        f = gen_family(rng)
+        if f is not None:
+            fams.append(f)
+    seq_lines = [enc_case(call_view(prep, c)[1], c["opts"]) for (_, calls, prep) in fams for c in calls]
+    nseq = len(seq_lines)
+    model = [None] * (nseq + len(cases))
     if ctx.model_available:
-        model = run_model_parallel(ctx, [enc_case(rec, o) for (_, rec, o, _, _, _) in cases])
-    for (spec, rec, o, route, mol, view), ml in zip(cases, model):
-        check_case(ctx, out, spec, rec, o, ml, route, mol, view)
+        # the model lines are computed from the objects as they are BEFORE any call
+        model = run_model_parallel(ctx, seq_lines + [enc_case(h["enc"], o) for (h, o, _) in cases])
+    log = []  # every call this process makes, in order: (variants, call)
+    run_sequences(ctx, out, zy, fams, model[:nseq], log)
+    first_main = None  # the main stream is itself one long call sequence
+    for (h, o, route), ml in zip(cases, model[nseq:]):
+        nv = len(out.violations)
+        edited = check_case(ctx, out, h["spec"], h["rec"], o, ml, route, h["mol"], h["view"], h["fp"])
+        if "variants" not in h:
+            h["variants"] = [{"spec": h["spec"], "aspect": "main-stream"}]
+        log.append((h["variants"], {"v": 0, "route": route, "opts": o, "rd": True, "fresh": False, "post": None}))
+        if len(out.violations) > nv and first_main is None:
+            first_main = (nv, len(log) - 1, h)
+        if edited:  # later cases get a fresh object (one finding per edit, not one per later call)
+            fresh = build_molrec(h["spec"])
+            if route == "Molecule":
+                h["mol"], h["rec"] = molecule_route(h["spec"], fresh)
+                h["fp"] = freeze_dict(h["mol"].dict())
+            else:
+                h["rec"] = fresh
+                h["fp"] = freeze_dict(fresh)
+    if first_main is not None and first_main[0] == 0:
+        # the run's first violation (the one that is recorded) came from the main stream: make sure the recorded case
+        # fails in a fresh process, i.e. record the earlier calls it depends on, if any
+        vpos, lp, h = first_main
+        v0 = out.violations[vpos]
+        try:
+            pentry = {"view_rec": h["view"], "rec": h["enc"], "view_mol": h["view"], "rec2": h["enc"]}
+            vs, cs, note = localise(ctx, zy, log, lp, v0.kind, pentry, None)
+            if len(cs) > 1 or not note.startswith("fails on its own"):
+                v0.case = {"stream": "sequence", "variants": vs, "calls": cs}
+                v0.detail = f"[main stream; {note}] " + v0.detail
+                out.count("main_stream:first_violation_is_history_dependent")
+        except Exception as e:  # noqa
+            out.count("main_stream:localise_failed:" + type(e).__name__)
     out.exhaustive = False
     out.count("molecules", len(mols))
     out.notes.append("every generated molecule is rendered in all 14 dtypes; unit request / width / precision / overrides are sampled from VERIF_SEED")
     out.notes.append("formats without a charge/multiplicity slot (terachem, turbomole, nglview-sdf; madness: spin_restricted flag only; nwchem/madness omit singlet) are outside the chgmult clause")
     out.notes.append("mrchem writes no unit at all; cfour/molpro/gamess/madness write the word None for nm/pm (outside the quantifier: formats that do not spell them)")
+    out.notes.append("call sequences: families of sibling molecules written in varied order in one process through molparse.to_string, Molecule.to_string, Molecule.to_file, "
+                     "objects reused / rebuilt, returned data scribbled on; each answer judged by the per-call oracle, checked for argument edits and compared with a fresh process's answer")
     return out
 
 
 def replay(ctx: Ctx, case) -> Outcome:
     out = Outcome()
+    if case.get("stream") == "sequence":
+        zy = Zygote()
+        try:
+            variants, calls = case["variants"], case["calls"]
+            prep = prepare_family(variants)
+            lines = [None] * len(calls)
+            if ctx.model_available:
+                lines = ctx.run_model(DRIVER, [enc_case(call_view(prep, c)[1], c["opts"]) for c in calls])
+            run_sequences(ctx, out, zy, [(variants, calls, prep)], lines, [], shrink_budget=0, also_isolated=True)
+        finally:
+            zy.close()
+        return out
     spec, o, route = case["spec"], case["opts"], case.get("route", "molparse")
     rec = build_molrec(spec)
     mol = view = None
@@ -980,6 +1758,8 @@ def replay(ctx: Ctx, case) -> Outcome:
         mol, rec = molecule_route(spec, rec)
         view = view_from_molecule(mol)
         view.pop("contiguous")
+    fp = freeze_dict(mol.dict() if mol is not None else rec)
+    view = view if view is not None else mol_view(rec)
     ml = ctx.run_model(DRIVER, [enc_case(rec, o)])[0] if ctx.model_available else None
-    check_case(ctx, out, spec, rec, o, ml, route, mol, view)
+    check_case(ctx, out, spec, rec, o, ml, route, mol, view, fp)
     return out
